@@ -2025,12 +2025,53 @@ func codecFieldSeq(info *types.Info, fd *ast.FuncDecl, reader bool) []string {
 			seq = append(seq, name)
 		}
 	}
+	isIOCall := func(v *ast.CallExpr) bool {
+		nm := strings.ToLower(calleeName(info, v))
+		if strings.HasPrefix(nm, "write") || strings.HasPrefix(nm, "read") {
+			return true
+		}
+		// a helper of another name that is handed the stream
+		for _, a := range v.Args {
+			if t := info.TypeOf(a); t != nil && (isWriterType(t) || isReaderType(t)) {
+				return true
+			}
+		}
+		return false
+	}
 	ast.Inspect(fd.Body, func(x ast.Node) bool {
 		switch v := x.(type) {
+		case *ast.RangeStmt:
+			// a table of the fields walked by a loop that does the I/O: the rows give the order
+			cl, _ := unparen(v.X).(*ast.CompositeLit)
+			if cl == nil {
+				if id, ok := unparen(v.X).(*ast.Ident); ok {
+					if d := singleDefOf(info, fd, info.Uses[id]); d != nil {
+						cl, _ = unparen(d).(*ast.CompositeLit)
+					}
+				}
+			}
+			if cl == nil {
+				return true
+			}
+			doesIO := false
+			ast.Inspect(v.Body, func(y ast.Node) bool {
+				if c, ok := y.(*ast.CallExpr); ok && isIOCall(c) {
+					doesIO = true
+				}
+				return !doesIO
+			})
+			if doesIO {
+				ast.Inspect(cl, func(y ast.Node) bool {
+					if se, ok := y.(*ast.SelectorExpr); ok {
+						add(se)
+						return false
+					}
+					return true
+				})
+			}
+			return true
 		case *ast.CallExpr:
-			nm := calleeName(info, v)
-			isIO := strings.HasPrefix(nm, "Write") || strings.HasPrefix(nm, "Read") || nm == "WriteTo" || nm == "ReadFrom"
-			if !isIO {
+			if !isIOCall(v) {
 				return true
 			}
 			for _, a := range v.Args {
